@@ -25,6 +25,15 @@ def level_plan(tier):
     ]
 
 
+def annotation_plan(tier):
+    """programs whose annotations matter (parameters / variables annotated with their own name, scopes attached in annotation positions):
+    only meaningful with annotation removal off, so only C03 (and the compile-only C08) use them"""
+    plan = [(1, 'full', 'ann', lambda i, n: 'ann', (False,)), (2, 'core', 'ann', lambda i, n: 'ann', (False,))]
+    if tier == 'thorough':
+        plan.append((2, 'mid', 'ann', lambda i, n: 'ann', (False,)))
+    return plan
+
+
 def programs(tier, part, nparts, plan=None):
     """yield (description, source) for this shard.  Sharding is by shape index so that generation work is divided too."""
     idx = 0
